@@ -306,6 +306,78 @@ func (s EngScenario) gallinaCase(id int, obs EngObs) string {
 }
 
 // ---- scenario generation ----
+// containers (text of the parent variable) indexed by a non-literal selector anywhere in the rules
+func computedContainers(rs []*Rule) map[string]bool {
+	out := map[string]bool{}
+	var walkE func(e *Expr)
+	var walkA func(a *Atom)
+	var walkV func(v *Var)
+	walkV = func(v *Var) {
+		if v == nil {
+			return
+		}
+		if v.Kind == "sel" {
+			if !(v.Sel.Kind == "atom" && v.Sel.A.Kind == "const") {
+				out[noSpace(v.V.grl())] = true
+			}
+			walkE(v.Sel)
+		}
+		walkV(v.V)
+	}
+	walkA = func(a *Atom) {
+		if a == nil {
+			return
+		}
+		walkV(a.V)
+		walkA(a.A)
+		walkE(a.Sel)
+		for _, x := range a.Args {
+			walkE(x)
+		}
+	}
+	walkE = func(e *Expr) {
+		if e == nil {
+			return
+		}
+		walkA(e.A)
+		walkE(e.E)
+		walkE(e.L)
+		walkE(e.R)
+	}
+	for _, r := range rs {
+		walkE(r.When)
+		for _, st := range r.Then {
+			walkV(st.X)
+			walkE(st.E)
+			walkA(st.A)
+		}
+	}
+	return out
+}
+
+func avoidD3(rs []*Rule) {
+	cc := computedContainers(rs)
+	if len(cc) == 0 {
+		return
+	}
+	for _, r := range rs {
+		for _, st := range r.Then {
+			if st.Kind == "assign" && st.X.Kind == "sel" && cc[noSpace(st.X.V.grl())] {
+				switch noSpace(st.X.V.grl()) {
+				case "F.FArr":
+					st.X = vPath("F", "F64")
+				case "F.Arr":
+					st.X = vPath("F", "I64")
+				case "F.SArr", "F.MS":
+					st.X = vPath("F", "S")
+				default:
+					st.X = vPath("F", "I64")
+				}
+			}
+		}
+	}
+}
+
 func usesGetI64(rs []*Rule) bool {
 	b, _ := json.Marshal(rs)
 	return strings.Contains(string(b), `"f":"GetI64"`)
@@ -337,6 +409,10 @@ func genEng(p *prng, prop string) EngScenario {
 		s.Rules = append(s.Rules, a, b)
 		n = len(s.Rules)
 	}
+	// stay outside the known-finding region D3 (an element written through one selector text and read through another
+	// that may denote the same element; replayed by the fixed regression scenarios): a container that is read through a
+	// computed selector is not assigned to
+	avoidD3(s.Rules)
 	// stay outside the known-finding region D2: a method reading F.I64 through its receiver is
 	// announced with Forget whenever an action changes F.I64
 	if usesGetI64(s.Rules) {
